@@ -311,7 +311,7 @@ theorem tie_scenario_role_lists (s : Scn) :
   simp [Gen.Scenario_static_obstacles, Gen.Scenario_dynamic_obstacles, Gen.Scenario_phantom_obstacle,
     Gen.Scenario_environment_obstacle, values, Id.run, pure]
 
-theorem find?_isSome_eq_any {α : Type} (p : α → Bool) (l : List α) : (l.find? p).isSome = l.any p := by
+theorem findOpt_isSome_eq_any {α : Type} (p : α → Bool) (l : List α) : (l.find? p).isSome = l.any p := by
   induction l with
   | nil => rfl
   | cons a as ih => by_cases h : p a <;> simp [List.find?, h, ih]
@@ -321,7 +321,7 @@ theorem find?_isSome_eq_any {α : Type} (p : α → Bool) (l : List α) : (l.fin
 theorem tie_scenario_obstacle_by_id (s : Scn) (i : Nat) : Gen.Scenario_obstacle_by_id s i = .ok (s.byId i) := by
   unfold Gen.Scenario_obstacle_by_id Scn.byId Scn.obstacles
   simp only [CR.Py.assert, if_true, bind, Except.bind, hasKey, getKey, List.find?_append, pure, Except.pure]
-  simp only [← find?_isSome_eq_any]
+  simp only [← findOpt_isSome_eq_any]
   cases h1 : s.st.find? (fun x => x.1 == i) <;> cases h2 : s.dy.find? (fun x => x.1 == i) <;>
     cases h3 : s.ph.find? (fun x => x.1 == i) <;> cases h4 : s.en.find? (fun x => x.1 == i) <;> simp
 
